@@ -222,7 +222,10 @@ impl<'a, R: 'a + Read> CompressionLayerReader<'a, R> {
                 Ok(brotli::Decompressor::new(
                     // Make the Decompressor work only on the compressed block's bytes, no more
                     inner.take(compressed_block_size as u64),
-                    compressed_block_size,
+                    // The size comes from the (untrusted) footer: it only bounds
+                    // the decompressor's input buffer, never allocate more than
+                    // a block for it
+                    compressed_block_size.min(UNCOMPRESSED_DATA_SIZE as usize),
                 ))
             }
             None => Err(Error::MissingMetadata),
